@@ -3,7 +3,7 @@
     (The comparison of [Url.resolve] with RFC 3986 section 5.2 is in C14_spec.v / C14_rfc.v.) *)
 From Coq Require Import Lia ZArith.
 From Hoot Require Import Base Chunk Body Httparse Parser Url Request Call Flow.
-From Hoot.proofs Require Import BytesLemmas C17_proofs C02_proofs C02_analysis.
+From Hoot.proofs Require Import AfterErr BytesLemmas C17_proofs C02_proofs C02_analysis.
 Open Scope N_scope.
 
 (* ------------------------------------------------------------------ vocabulary *)
@@ -287,8 +287,15 @@ Qed.
 
 (* ------------------------------------------------------------------ histories *)
 
+(** A failed body read: the caller keeps its flow, but the chunked decoder inside it was mutated in
+    place and stays in the state it had reached ([recv_body_after_err], Flow.v; proofs/AfterErr.v).
+    The request is untouched. *)
+Lemma recv_body_after_err_keeps f input cap : keeps f (recv_body_after_err f input cap).
+Proof. apply keeps_call. apply recv_body_after_err_req. Qed.
+
 (** One operation of the flow API between Prepare and Redirect, with any arguments, in any state
-    (the relation over-approximates the type-state discipline of the Rust API). *)
+    (the relation over-approximates the type-state discipline of the Rust API).  A failed operation
+    leaves the flow as it was, except a failed body read ([st_read_err]). *)
 Inductive flow_step : inner -> inner -> Prop :=
 | st_header f k v f' : prepare_header f k v = Ok f' -> flow_step f f'
 | st_despite f f' : send_body_despite_method f = Ok f' -> flow_step f f'
@@ -302,6 +309,7 @@ Inductive flow_step : inner -> inner -> Prop :=
 | st_try_response f input f' used got : recv_try_response f input = Ok (f', used, got) -> flow_step f f'
 | st_recv_response_proceed f t f' : recv_response_proceed f = Ok (Some (t, f')) -> flow_step f f'
 | st_read f input cap f' i o : recv_body_read f input cap = Ok (f', i, o) -> flow_step f f'
+| st_read_err f input cap e : recv_body_read f input cap = Err e -> flow_step f (recv_body_after_err f input cap)
 | st_stop f b f' : recv_body_stop f b = Ok f' -> flow_step f f'
 | st_recv_body_proceed f t f' : recv_body_proceed f = Ok (Some (t, f')) -> flow_step f f'.
 
@@ -324,6 +332,7 @@ Proof.
   - eapply recv_try_response_keeps; eauto.
   - eapply recv_response_proceed_keeps; eauto.
   - eapply recv_body_read_keeps; eauto.
+  - apply recv_body_after_err_keeps.
   - eapply recv_body_stop_keeps; eauto.
   - eapply recv_body_proceed_keeps; eauto.
 Qed.
@@ -357,14 +366,17 @@ Lemma flow_step_def f f' :
   (exists input used got, recv_try_response f input = Ok (f', used, got)) \/
   (exists t, recv_response_proceed f = Ok (Some (t, f'))) \/
   (exists input cap i o, recv_body_read f input cap = Ok (f', i, o)) \/
+  (exists input cap e, recv_body_read f input cap = Err e /\ f' = recv_body_after_err f input cap) \/
   (exists b, recv_body_stop f b = Ok f') \/
   (exists t, recv_body_proceed f = Ok (Some (t, f'))).
 Proof.
   split.
-  - intros H. destruct H; eauto 20.
+  - intros H. destruct H; eauto 25.
   - intros H.
     repeat (destruct H as [H|H];
-            [repeat match type of H with ex _ => destruct H as [? H] end; econstructor; eassumption|]).
+            [repeat match type of H with ex _ => destruct H as [? H] end;
+             match type of H with _ /\ _ => destruct H as [H ->] | _ => idtac end;
+             econstructor; eassumption|]).
     destruct H as [t H]. eapply st_recv_body_proceed; eassumption.
 Qed.
 
